@@ -584,19 +584,24 @@ func (b *assignmentBuilder) sliceToSlice(lhs, rhs bmodel.Node) (a gmodel.Assignm
 	if lhsElem == nil || rhsElem == nil {
 		return
 	}
+	// A field of a named slice type (type IDs []int) is made with its own type name.
+	namedTyp := ""
+	if util.IsNamedType(lhs.ExprType()) {
+		namedTyp = b.imports.TypeName(lhs.ExprType())
+	}
 
 	if types.AssignableTo(rhsElem, lhsElem) {
 		if util.IsBasicType(rhsElem) && types.Identical(rhsElem, lhsElem) {
 			a = gmodel.SliceAssignment{
 				LHS: lhs.AssignExpr(),
 				RHS: rhs.AssignExpr(),
-				Typ: "[]" + lhsElem.String(),
+				Typ: orElse(namedTyp, "[]"+lhsElem.String()),
 			}
 		} else {
 			a = gmodel.SliceLoopAssignment{
 				LHS: lhs.AssignExpr(),
 				RHS: rhs.AssignExpr(),
-				Typ: "[]" + b.imports.TypeName(lhsElem),
+				Typ: orElse(namedTyp, "[]"+b.imports.TypeName(lhsElem)),
 			}
 		}
 		return
@@ -606,10 +611,18 @@ func (b *assignmentBuilder) sliceToSlice(lhs, rhs bmodel.Node) (a gmodel.Assignm
 		a = gmodel.SliceTypecastAssignment{
 			LHS:  lhs.AssignExpr(),
 			RHS:  rhs.AssignExpr(),
-			Typ:  "[]" + b.imports.TypeName(lhsElem),
+			Typ:  orElse(namedTyp, "[]"+b.imports.TypeName(lhsElem)),
 			Cast: b.imports.TypeName(lhsElem),
 		}
 		return
 	}
 	return
+}
+
+// orElse returns s unless it is empty, in which case it returns fallback.
+func orElse(s, fallback string) string {
+	if s != "" {
+		return s
+	}
+	return fallback
 }
